@@ -270,11 +270,25 @@ func checkC13(tier, replay string) int {
 			Case struct {
 				Scenario string `json:"scenario"`
 				Choices  []int  `json:"choices"`
+				PState   bool   `json:"process_state_history"`
 			} `json:"case"`
 		}
 		if err := readJSON(replay, &f); err != nil {
 			fmt.Println(err)
 			return 2
+		}
+		if f.Case.PState {
+			fmt.Println("replaying the process-state histories (compile; load a filter; compile again on two threads)")
+			c13ProcessState(ctx)
+			if ctx.NumViolations() > 0 {
+				for _, l := range ctx.Describe() {
+					fmt.Println(l)
+				}
+				fmt.Println("REPRODUCED")
+				return 1
+			}
+			fmt.Println("not reproduced")
+			return 0
 		}
 		cb, _ := json.Marshal(f.Case.Choices)
 		out, _ := exec.Command(instrBin, "child", "c13explore", f.Case.Scenario, "0", "0", "1", string(cb)).Output()
@@ -394,6 +408,7 @@ func checkC13(tier, replay string) int {
 			ctx.Violation("C13:nondeterministic:"+strings.SplitN(k, "(", 2)[0], fmt.Sprintf("%s is not a function of the value: %d distinct results over %d processes x 512 calls: %q", k, len(set), procs, vs), map[string]any{"what": k, "results": vs})
 		}
 	}
+	stateHists, stateCompiles := c13ProcessState(ctx)
 	lap("histories+texts")
 	// 5. free-running race pass
 	raceRuns := c13RacePass(ctx, scratch)
@@ -411,9 +426,11 @@ func checkC13(tier, replay string) int {
 	ctx.Cov["sequential_histories"] = histories
 	ctx.Cov["sequential_history_steps"] = hsteps
 	ctx.Cov["fresh_processes_for_text_forms"] = procs
+	ctx.Cov["process_state_histories"] = stateHists
+	ctx.Cov["compilations_compared_across_process_states"] = stateCompiles
 	ctx.Cov["distinct_text_results_seen"] = distinctTexts
 	ctx.Cov["race_pass_runs"] = raceRuns
-	ctx.Cov["rule"] = "the current sources of the library packages are rewritten (a scheduling point before every statement; functions that iterate maps run as atomic steps), compiled with go build -overlay and run under a cooperative scheduler; for each scenario (two copies sharing backing arrays, two architectures, Assemble||Dump, Assemble||GetInfo, Assemble||text conversions, same value twice, three threads) every schedule with at most 1 preemption (2 for the small and the tiny shared-copies scenarios; thorough: 2 for every two-thread scenario and 3 for the tiny one) is executed on the real code; oracle per schedule: each call returns what it returns alone and every input policy incl. spare slice capacity is bit-identical; a reported schedule is replayed twice in a fresh process; plus all operation histories of length <= 4 over 9 operations (incl. compiling two values that share one Syscalls slice for two architectures, and modifying a policy value that was compiled before), text forms over 512 calls in fresh processes, and a separate free-running -race pass of the same bodies"
+	ctx.Cov["rule"] = "the current sources of the library packages are rewritten (a scheduling point before every statement; functions that iterate maps run as atomic steps), compiled with go build -overlay and run under a cooperative scheduler; for each scenario (two copies sharing backing arrays, two architectures, Assemble||Dump, Assemble||GetInfo, Assemble||text conversions, same value twice, three threads) every schedule with at most 1 preemption (2 for the small and the tiny shared-copies scenarios; thorough: 2 for every two-thread scenario and 3 for the tiny one) is executed on the real code; oracle per schedule: each call returns what it returns alone and every input policy incl. spare slice capacity is bit-identical; a reported schedule is replayed twice in a fresh process; plus all operation histories of length <= 4 over 9 operations (incl. compiling two values that share one Syscalls slice for two architectures, and modifying a policy value that was compiled before), text forms over 512 calls in fresh processes, compilations of the same policy before and after the process state changed in fresh children (a filter loaded on the compiling thread only / on every thread; one that answers EPERM to seccomp(2) itself; as root and as uid 65534; compiled on the loading thread and on another one): all results of one history must be identical, and a separate free-running -race pass of the same bodies"
 	ctx.Sample(map[string]any{"scenario": "shared-copies", "threads": []string{"Assemble(p)", "Assemble(copy of p sharing Syscalls/Names/Conditions arrays)"}, "schedule_example": "thread 0 runs to filter.go:2xx, preempted, thread 1 runs to completion, thread 0 resumes"})
 	ctx.Assumptions = []string{"scheduling points at statement granularity; unsynchronised accesses inside one statement are covered by the separate -race pass", "map iteration order cannot be controlled; it is covered by repetition across processes (miss probability < 1e-14 per process for the 2-key flag map)"}
 	return ctx.Finish()
@@ -561,4 +578,65 @@ func c13RacePass(ctx *evid.Ctx, scratch string) int {
 		}
 	})
 	return runs
+}
+
+// c13ProcessState: "equal policies compile identically across repeated calls and across processes" includes processes and
+// threads that are in different kernel states. Each history compiles one policy, changes the process state through the real
+// LoadFilter (a harmless filter, or one that makes seccomp(2) itself fail with EPERM; on the loading thread or on all), and
+// compiles again on the loader's thread and on another thread.
+func c13ProcessState(ctx *evid.Ctx) (hists, compiles int64) {
+	type job struct {
+		kind, state string
+		tsync       uint32
+		priv        bool
+	}
+	var jobs []job
+	for _, k := range []string{"A", "B", "perm-log", "perm-twoallow"} {
+		for _, st := range []string{"A", "denysec"} {
+			for _, ts := range []uint32{0, 1} {
+				for _, priv := range []bool{true, false} {
+					jobs = append(jobs, job{k, st, ts, priv})
+				}
+			}
+		}
+	}
+	parallelFor(len(jobs), func(i int) {
+		j := jobs[i]
+		sc := &histScript{Threads: 2, Ops: []histOp{
+			{Op: "compile", T: 0, Kind: j.kind}, {Op: "compile", T: 1, Kind: j.kind},
+			{Op: "load", T: 0, Kind: j.state, Flags: j.tsync, NNP: true},
+			{Op: "compile", T: 0, Kind: j.kind}, {Op: "compile", T: 1, Kind: j.kind}, {Op: "compile", T: 0, Kind: j.kind}}}
+		hr := runHist(sc, !j.priv)
+		if hr.TimedOut || len(hr.Results) != len(sc.Ops) {
+			ctx.Capped("a process-state history child did not complete")
+			return
+		}
+		atomic.AddInt64(&hists, 1)
+		if hr.Results[2].Err != nil {
+			ctx.Capped("the state-changing load of a process-state history failed: " + *hr.Results[2].Err)
+			return
+		}
+		first := hr.Results[0]
+		show := func(r histResult) string {
+			if r.Err != nil {
+				return "error: " + *r.Err
+			}
+			return fmt.Sprintf("%d instructions, hash %s", r.CompLen, r.Compiled)
+		}
+		for k, r := range hr.Results {
+			if r.Op != "compile" {
+				continue
+			}
+			atomic.AddInt64(&compiles, 1)
+			if show(r) != show(first) || first.Err != nil {
+				where := "before"
+				if k > 2 {
+					where = "after"
+				}
+				ctx.Violation("C13:depends-on-process-state:"+j.state, fmt.Sprintf("compiling policy %s on thread T%d %s a %s filter was loaded (thread-sync=%v, privileged=%v) gives %s; the first compilation in the same process gave %s", j.kind, r.T, where, j.state, j.tsync == 1, j.priv, show(r), show(first)), map[string]any{"process_state_history": true, "kind": j.kind, "state": j.state, "tsync": j.tsync, "privileged": j.priv})
+				return
+			}
+		}
+	})
+	return
 }
